@@ -579,7 +579,17 @@ def run_case(case):
         argv = [world.subst(o, w.R) for o in case['opts']]
         argv.append('--')
         argv += [world.subst(a['spelling'], w.R) for a in case['args']]
-        r = run.run(w, 'put', argv, stdin=case.get('stdin', '').encode())
+        plan = None
+        if case.get('index', 0) % 5 == 1 and not fallback_on(case):
+            # files/ and info/ of every trash directory can be searched but
+            # not LISTED (mode 0300, a flaky network file system): trash-put
+            # looks names up one by one and never needs a listing.  (Without
+            # the copy fallback the unchanged code lists nothing at all.)
+            plan = {'pfaults': [{'ops': ['listdir', 'scandir'], 'errno': 13,
+                                 're': r'/(\.Trash(-\d+|/\d+)|Trash|[^/]*trash[^/]*)/(files|info)$'}]}
+            out['obs']['runs_with_unlistable_trash_dirs'] = 1
+        r = run.run(w, 'put', argv, stdin=case.get('stdin', '').encode(),
+                    plan=plan)
         s1 = w.snapshot()
         res = judge(case, w, r, s0, s1, des, out)
     if case.get('interrupts') and res.get('verdict') == 'ok' and not r.timeout:
